@@ -233,6 +233,12 @@ struct Ports
      */
     static char *collapsePath(char *p);
 
+#ifdef RTOSC_VERIF
+    //verification hook: copies of the lookup tables built by refreshMagic()
+    void verif_tables(std::vector<int> &pos, std::vector<int> &assoc,
+                      std::vector<int> &remap) const;
+#endif
+
     protected:
     void refreshMagic(void);
     private:
